@@ -155,3 +155,110 @@ func (cp *Compaction) UsesAfterLoop() (good, bad []ssa.Instruction) {
 	}
 	return good, bad
 }
+
+// Shift is an in-place element move s[i+a] = s[i+b] inside a loop over i.
+// K = a-b is the distance elements travel; Dir is the direction of the loop
+// (+1 ascending, -1 descending, 0 not determined). Such a loop only moves
+// elements faithfully when it walks against the direction of travel
+// (K>0 needs Dir<0, K<0 needs Dir>0); walking with it smears one element over
+// the rest (the memmove direction rule).
+type Shift struct {
+	Fn    *ssa.Function
+	Store *ssa.Store
+	S     ssa.Value
+	K     int64
+	Dir   int
+}
+
+// linOff splits v into base + constant offset.
+func linOff(v ssa.Value) (ssa.Value, int64) {
+	off := int64(0)
+	for {
+		switch x := v.(type) {
+		case *ssa.Convert:
+			v = x.X
+			continue
+		case *ssa.BinOp:
+			if k, ok := ConstInt(x.Y); ok && (x.Op == token.ADD || x.Op == token.SUB) {
+				if x.Op == token.ADD {
+					off += k
+				} else {
+					off -= k
+				}
+				v = x.X
+				continue
+			}
+			if k, ok := ConstInt(x.X); ok && x.Op == token.ADD {
+				off += k
+				v = x.Y
+				continue
+			}
+		}
+		return v, off
+	}
+}
+
+// phiDir tells whether a loop-header phi counts up or down.
+func phiDir(p *ssa.Phi) int {
+	dir := 0
+	for i, e := range p.Edges {
+		if !p.Block().Dominates(p.Block().Preds[i]) {
+			continue // entry edge
+		}
+		base, off := linOff(e)
+		if base != ssa.Value(p) || off == 0 {
+			return 0
+		}
+		d := 1
+		if off < 0 {
+			d = -1
+		}
+		if dir != 0 && dir != d {
+			return 0
+		}
+		dir = d
+	}
+	return dir
+}
+
+// FindShifts lists the in-place shifts of fn.
+func FindShifts(fn *ssa.Function) []*Shift {
+	var out []*Shift
+	for _, b := range fn.Blocks {
+		for _, in := range b.Instrs {
+			st, ok := in.(*ssa.Store)
+			if !ok {
+				continue
+			}
+			dst, ok := st.Addr.(*ssa.IndexAddr)
+			if !ok {
+				continue
+			}
+			ld, ok := st.Val.(*ssa.UnOp)
+			if !ok || ld.Op != token.MUL {
+				continue
+			}
+			src, ok := ld.X.(*ssa.IndexAddr)
+			if !ok || !sameValue(dst.X, src.X) {
+				continue
+			}
+			db, doff := linOff(dst.Index)
+			sb, soff := linOff(src.Index)
+			if !sameValue(db, sb) || doff == soff {
+				continue
+			}
+			p := headerPhi(db)
+			if p == nil {
+				continue
+			}
+			out = append(out, &Shift{Fn: fn, Store: st, S: dst.X, K: doff - soff, Dir: phiDir(p)})
+		}
+	}
+	return out
+}
+
+// Safe reports whether the shift walks against the direction of travel.
+func (s *Shift) Safe() bool { return (s.K > 0 && s.Dir < 0) || (s.K < 0 && s.Dir > 0) }
+
+// LinOff splits v into base + constant offset.
+func LinOff(v ssa.Value) (ssa.Value, int64) { return linOff(v) }
